@@ -513,7 +513,7 @@ class Gen:
     constraints on foreign patterns (_foreign), flat copies of one chain of a rule (_flat)."""
 
     def __init__(self, rng, max_rules=6, max_len=4, signing=0.5, p_forward=0.15, p_redef=0.18, p_twin=0.5, force_twin=0.0, carried=0.0, dual=0.0,
-                 foreign=0.0, flat=0.0):
+                 foreign=0.0, flat=0.0, stack=0.0, tower=0.0, wide=0.0):
         self.rng = rng
         self.max_rules = max_rules
         self.max_len = max_len
@@ -526,7 +526,11 @@ class Gen:
         self.dual = dual
         self.foreign = foreign        # P(a constraint inherited through a reference onto a pattern only the referring rule has)
         self.flat = flat              # P(a rule written like ONE chain of another rule, with signers of its own)
-        self.stat = {'foreign': 0, 'flat': 0}
+        self.stack = stack            # P(one pattern of an expanded name gets several constraints with mixed alternatives)
+        self.tower = tower            # P(references nested 3-4 deep that reach one rule twice without naming it twice)
+        self.wide = wide              # P(a schema of 10+ rules with 10+ named and 10+ temporary patterns)
+        self.force = set()            # shapes the NEXT schema gets whatever the dice say ({'wide'}): a driver with few schemas
+        self.stat = {'foreign': 0, 'flat': 0, 'stack': 0, 'tower': 0, 'wide': 0}
 
     def schema(self):
         rng = self.rng
@@ -664,7 +668,201 @@ class Gen:
                 self._foreign(rules)
             if rng.random() < self.flat:
                 self._flat(rules, perm, pos)
+            # (the two shapes below draw from the generator only when switched on: callers that leave them at 0 keep
+            # their stream of schemas)
+            if self.tower and rng.random() < self.tower:
+                self._tower(rules)
+            if self.stack and rng.random() < self.stack:
+                self._stack(rules)
+            if 'wide' in self.force or (self.wide and rng.random() < self.wide):
+                self._wide(rules)
+            self.force = set()
         return rules
+
+    def _wide(self, rules):
+        """Scale: 9 to 13 more rules #w1.. over the literals the schema already has, each with a named pattern of its
+        own (n1, n2, ...: 10 and more distinct named patterns in the schema, numbered in whatever order the compiler
+        meets them) that is repeated within the name, referred to by a constraint on another pattern ({q: n}, $eq(n)),
+        shared with the rule that signs it (the key repeats the packet's binding) or simply reported in the bindings;
+        every third rule has temporary patterns instead (10 and more of those as well).  #w1 <= #w2 <= ... ."""
+        rng = self.rng
+        n = rng.choice([9, 11, 13])
+        for i in range(1, n + 1):
+            p, q, prev = 'n%d' % i, 'm%d' % i, 'n%d' % (i - 1)
+            lit = rng.choice(self.lits)
+            x = rng.randrange(6)
+            cons = []
+            if x == 0:
+                name = [P(p), P(p)] if rng.random() < 0.5 else [V(lit), P(p), P(p)]
+            elif x == 1:
+                name = [P(p), V(lit), P(q)]
+                cons = [[CONS(q, P(p) if rng.random() < 0.5 else F('$eq', P(p)))]]
+            elif x == 2 and i > 1:
+                name = [V(lit), P(p), P(prev)]
+            elif x == 3:
+                name = [V(lit), P(p)]
+            elif x == 4:
+                t, u = rng.sample(['_', '_t', '_u', '_w%d' % i], 2)
+                name = [P(t), V(lit), P(u)]
+                cons = [[CONS(u, V(rng.choice(self.lits)), V('u'))]]
+            else:
+                name = [P(p), P('_w%d' % i), P(p)]
+            rid = '#w%d' % i
+            rules.append(rule(rid, name, cons, sign=['#w%d' % (i + 1)] if i < n else []))
+            self.minlen[rid] = len(name)
+            self.pats[rid] = {i_['p'] for i_ in name if i_['k'] == 'p' and i_['p'][0] != '_'}
+            self.uses[rid] = {rid}
+        self.stat['wide'] += 1
+
+    def _tower(self, rules):
+        """Depth of inlining: a rule K with a constrained pattern at the bottom, one or two rules that inline K (A, B),
+        possibly a rule that inlines A (C), and a rule T on top whose expanded name holds K TWICE although neither T nor
+        any rule below names K (or the rule between) twice itself: T: #A/#K, #K/#A, #A/#B, #C/#K, #C/#B (and, next to
+        them, the direct double reference #A/#A of a rule that inlines K).  Every copy of a temporary pattern keeps the
+        constraints of its text; a named pattern must repeat its value.  T is a packet rule (signed) and a key rule (the
+        signer of a rule whose name binds a named pattern) at once.  Expanded names of T are 2 to 7 components long."""
+        rng = self.rng
+        lits = self.lits + ['u']
+
+        def ctemp(d):
+            ts = {i['p'] for i in d['name'] if i['k'] == 'p' and i['p'][0] == '_'}
+            return any(c['pat'] in ts for cs in d['cons'] for c in cs)
+        have = sorted({d['id'] for d in rules if d['id'][1] != '_' and self.minlen.get(d['id'], 9) <= 2 and ctemp(d)})
+        if have and rng.random() < 0.4:
+            k = rng.choice(have)
+        else:
+            k = '#tk'
+            v = rng.choice(TEMPS + TEMPS + [rng.choice(self.named)])
+            name = [P(v)]
+            x = rng.random()
+            if x < 0.3:
+                name = [V(rng.choice(self.lits))] + name
+            elif x < 0.45:
+                name = name + [V(rng.choice(self.lits))]
+            l1, l2 = rng.sample(lits, 2)
+            x = rng.random()
+            if x < 0.45:
+                cons = [[CONS(v, V(l1), V(l2))]]
+            elif x < 0.7:
+                cons = [[CONS(v, V(l1))], [CONS(v, V(l2))]]
+            elif x < 0.85:
+                cons = [[CONS(v, F('$in', V(l1), V(l2)))]]
+            else:
+                cons = [[CONS(v, V(l1), F('$isv'))]]
+            rules.append(rule(k, name, cons))
+            self.minlen[k] = len(name)
+            self.pats[k] = {v} if v[0] != '_' else set()
+            self.uses[k] = {k}
+
+        def mid(rid, ref):
+            name, cons = [R(ref)], []
+            x = rng.random()
+            if x < 0.3:
+                name.append(V(rng.choice(self.lits)))
+            elif x < 0.45:
+                name.insert(0, V(rng.choice(self.lits)))
+            elif x < 0.8:
+                # a constrained temporary pattern of its own after / before the inlined rule: temporaries of different
+                # rules meet in one expanded name
+                m = rng.choice(['_m', '_m', '_t'])
+                name.insert(rng.choice([0, 1, 1]), P(m))
+                cons = [[CONS(m, V(rng.choice(lits)))]]
+            rules.append(rule(rid, name, cons))
+            self.minlen[rid] = self.minlen[ref] + len(name) - 1
+            self.pats[rid] = set(self.pats.get(ref, ()))
+            self.uses[rid] = {rid} | self.uses.get(ref, {ref})
+            return rid
+        a = mid('#ta', k)
+        shape = rng.choice(['ak', 'ka', 'ab', 'ck', 'cb', 'a-k', 'aa', 'ak', 'ab'])
+        b = mid('#tb', k) if 'b' in shape else None
+        c = mid('#tc', a) if 'c' in shape else None
+        ref = {'a': a, 'b': b, 'c': c, 'k': k}
+        name = [V(rng.choice(self.lits)) if ch == '-' else R(ref[ch]) for ch in shape]
+        existing = sorted({d['id'] for d in rules if d['id'][1] != '_' and d['id'][:2] != '#t' and self.minlen.get(d['id'], 9) <= 3})
+        if existing and rng.random() < 0.5:
+            signer = rng.choice(existing)
+        else:
+            signer = '#ts'
+            rules.append(rule(signer, [V(rng.choice(self.lits)), P('_')][:rng.choice([1, 2, 2])]))
+            self.minlen[signer], self.pats[signer], self.uses[signer] = 1, set(), {signer}
+        rules.append(rule('#tt', name, sign=[signer]))
+        self.minlen['#tt'] = sum(self.minlen[i['r']] if i['k'] == 'r' else 1 for i in name)
+        self.pats['#tt'] = set(self.pats.get(k, ()))
+        self.uses['#tt'] = {'#tt'}.union(*[self.uses[i['r']] for i in name if i['k'] == 'r'])
+        q = rng.choice(sorted(self.pats[k]) or self.named)
+        rules.append(rule('#td', [V(rng.choice(self.lits)), P(q if rng.random() < 0.7 else '_')], sign=['#tt']))
+        self.minlen['#td'], self.pats['#td'], self.uses['#td'] = 2, {q}, {'#td'}
+        self.stat['tower'] += 1
+
+    def _stack(self, rules):
+        """Number of constraints on ONE pattern of one expanded name: a pattern p of a short rule D (of D's own text, or
+        inherited through a reference) gets a further constraint in every constraint set of D - two when it has none
+        yet.  The constraints hold together, each through one of its options; the options of the new constraint are
+        literals - mostly other ones than the constraints already there allow - mixed with "equal to pattern q",
+        $eq(q), $in(literals the other constraint allows), $isv: constraints whose literals exclude each other may
+        still hold at once through another alternative (and do exclude each other when there is none)."""
+        rng = self.rng
+        signers = {q for d in rules for q in d['sign']}
+        occurring = sorted({i['p'] for r in rules for i in r['name'] if i['k'] == 'p' and i['p'][0] != '_'})
+        cands = []
+        for d in rules:
+            if self.minlen.get(d['id'], 9) > 3:
+                continue
+            own = {i['p'] for i in d['name'] if i['k'] == 'p'}
+            inh = set().union(*[self.pats.get(i['r'], set()) for i in d['name'] if i['k'] == 'r']) if d['name'] else set()
+            for p in sorted(own | inh):
+                there = self._lits_on(rules, d, p)
+                w = (2 if d['sign'] or d['id'] in signers else 1) * (3 if there is not None else 1)
+                cands += [(d, p)] * w
+        if not cands:
+            return
+        d, p = rng.choice(cands)
+        there = self._lits_on(rules, d, p)
+        new = []
+        for _ in range(1 if there is not None else 2):
+            pool = self.lits + ['u']              # (no further literals: the alphabet of the names grows with them)
+            away = [v for v in pool if v not in (there or ())]
+            src = away if away and rng.random() < 0.65 else pool
+            opts = [V(v) for v in rng.sample(src, min(len(src), rng.choice([1, 1, 2])))]
+            x = rng.random()
+            before = []
+            for i in d['name']:                      # named patterns that have a value when p is met
+                if i['k'] == 'p' and i['p'] == p:
+                    break
+                before += [i['p']] if i['k'] == 'p' and i['p'][0] != '_' else sorted(self.pats.get(i['r'], ())) if i['k'] == 'r' else []
+            before = [q for q in before if q != p and q in occurring]
+            qs = before if before and rng.random() < 0.7 else [q for q in occurring if q != p]
+            if x < 0.3 and qs:
+                opts.append(P(rng.choice(qs)))
+            elif x < 0.5 and qs:
+                opts.append(F('$eq', P(rng.choice(qs))))
+            elif x < 0.7 and there:
+                opts.append(F('$in', *[V(v) for v in rng.sample(sorted(there), min(len(there), rng.choice([1, 2])))]))
+            elif x < 0.8:
+                opts.append(F('$isv'))
+            rng.shuffle(opts)
+            new.append(CONS(p, *opts))
+            there = (there or set()) | {o['v'] for o in opts if o['k'] == 'v'}
+        if not d['cons']:
+            d['cons'] = [new]
+        else:
+            for cs in d['cons']:
+                cs.extend(json.loads(json.dumps(new)))
+        self.stat['stack'] += 1
+
+    @staticmethod
+    def _lits_on(rules, d, p):
+        """literal options of the constraints that definition d and (for a named p) the rules it inlines directly put
+        on pattern p; None when there is no such constraint"""
+        found, out = False, set()
+        defs = [d] + ([r for i in d['name'] if i['k'] == 'r' for r in rules if r['id'] == i['r']] if p[0] != '_' else [])
+        for r in defs:
+            for cs in r['cons']:
+                for c in cs:
+                    if c['pat'] == p:
+                        found = True
+                        out |= {o['v'] for o in c['opts'] if o['k'] == 'v'}
+        return out if found else None
 
     def _foreign(self, rules):
         """A rule A constrains a NAMED pattern q that its own expanded name does not contain (legal as soon as q occurs
@@ -920,6 +1118,61 @@ def alphabet(rules, rng, size=5):
         # components of the two long-typed classes: the other type first, so that it survives the cut
         fresh = [c for c in ('301=x', '300=y') if c not in lits] + fresh
     return lits + fresh[:max(1, size - len(lits))]      # never drops a literal; at least one fresh component
+
+
+def _expand_random(rules, r, rng, depth=0):
+    """one chain of definition r, chosen at random: (items without references, constraints met on the way)"""
+    cons = list(rng.choice(r['cons'])) if r['cons'] else []
+    name = []
+    for it in r['name']:
+        if it['k'] != 'r':
+            name.append(it)
+            continue
+        defs = [d for d in rules if d['id'] == it['r']]
+        sub = _expand_random(rules, rng.choice(defs), rng, depth + 1) if defs and depth < 8 else None
+        if sub is None:
+            return None
+        name += sub[0]
+        cons += sub[1]
+    return name, cons
+
+
+def chain_names(rules, alpha, rng, L, maxlen=7, limit=24):
+    """Names LONGER than L (the bound up to which all names are asked) chosen by looking at the schema: for expanded
+    names of L+1 .. maxlen components, the literals in place and the patterns filled with a literal one of their
+    constraints allows or with any symbol of the alphabet (a named pattern mostly repeats its value), and the same
+    names with one component replaced.  Only a choice of inputs: what the answers must be is decided by Lvs!Check."""
+    out, seen = [], set()
+    defs = [r for r in rules if any(i['k'] == 'r' for i in r['name']) or len(r['name']) > L]
+    for _ in range(4 * limit):
+        if len(out) >= limit or not defs:
+            break
+        ex = _expand_random(rules, rng.choice(defs), rng)
+        if ex is None or not L < len(ex[0]) <= maxlen:
+            continue
+        items, cons = ex
+        vals, nm = {}, []
+        for it in items:
+            if it['k'] == 'v':
+                nm.append(it['v'])
+                continue
+            p = it['p']
+            allowed = sorted({o['v'] for c in cons if c['pat'] == p for o in c['opts'] if o['k'] == 'v'} & set(alpha))
+            if p[0] != '_' and p in vals and rng.random() < 0.85:
+                v = vals[p]
+            else:
+                v = rng.choice(allowed) if allowed and rng.random() < 0.7 else rng.choice(alpha)
+            vals[p] = v
+            nm.append(v)
+        mut = list(nm)
+        k = rng.choice([j for j, it in enumerate(items) if it['k'] == 'p'] or list(range(len(nm)))) if rng.random() < 0.8 \
+            else rng.randrange(len(nm))
+        mut[k] = rng.choice([c for c in alpha if c != mut[k]] or alpha)
+        for n in (nm, mut):
+            if tuple(n) not in seen:
+                seen.add(tuple(n))
+                out.append(n)
+    return out[:limit]
 
 
 # ------------------------------------------------------------------ TLC judge
